@@ -961,7 +961,8 @@ def run_iterative(case):
     if driver in HERMITIAN_ONLY and eff in SQRT_FORMS and case["req"] == "cap":
         mb = min(d, case["rank"])  # sqrt of a kept (numerically) zero eigenvalue: finding C05-i, owned by `untruncated`
     info = std_info(case, x, driver, eff)
-    k_req = mb if mb is not None else case["rank"]
+    # rank the driver will target: with a cutoff _choose_k estimates the numerical rank (capped), otherwise the cap
+    k_req = min(case["rank"], mb or d) if co > 0 else mb
     info["sparse_branch"] = bool(uses_choose_k(driver) and k_req <= d // 2)
     extra = {"seed": case["seed"] % 1000} if driver == "svd:rand" else None
     try:
